@@ -1002,4 +1002,212 @@ theorem finish_unprep_refines {s : State κ} {o : OState κ} (c : Nat) (cl : Cal
     subst hp'
     rfl
 
+/-! ### every step, every schedule -/
+
+theorem step_refines {s s' : State κ} {o : OState κ} {a : Action κ} {evs : List (Ev κ)} (hI : Inv s) (hR : Rel s o)
+    (h : PConn.step s a = some (s', evs)) : ∃ o', Obs.run o evs = some o' ∧ Inv s' ∧ Rel s' o' := by
+  cases a with
+  | call b es =>
+    simp only [PConn.step] at h
+    by_cases hes : es = []
+    · simp [hes] at h
+    · rw [if_neg hes] at h
+      injection h with h; injection h with h1 h2; subst h1; subst h2
+      exact call_refines b es hes hI hR
+  | lookup c =>
+    simp only [PConn.step] at h
+    cases hc : s.callers[c]? with
+    | none => simp [hc] at h
+    | some cl =>
+      simp only [hc] at h
+      by_cases hpc : cl.pc = .start
+      · rw [if_pos hpc] at h
+        cases he : cl.entries[cl.got.length]? with
+        | none => simp [he] at h
+        | some e =>
+          simp only [he] at h
+          cases hck : s.cache e.1 with
+          | some f =>
+            simp only [hck] at h
+            injection h with h; injection h with h1 h2; subst h1; subst h2
+            obtain ⟨q1, q2⟩ := lookup_hit_refines c cl e f hI hR hc hpc he hck
+            exact ⟨o, rfl, q1, q2⟩
+          | none =>
+            simp only [hck] at h
+            injection h with h; injection h with h1 h2; subst h1; subst h2
+            obtain ⟨q1, q2⟩ := lookup_miss_refines c cl e hI hR hc hpc he hck
+            exact ⟨o, rfl, q1, q2⟩
+      · rw [if_neg hpc] at h; cases h
+  | evict k =>
+    simp only [PConn.step] at h
+    cases hck : s.cache k with
+    | none => simp [hck] at h
+    | some g =>
+      simp only [hck] at h
+      injection h with h
+      have h1 : s' = (removeKey s k).1 := by rw [h]
+      have h2 : evs = (removeKey s k).2 := by rw [h]
+      subst h1; subst h2
+      exact removeKey_refines k hI hR
+  | srvPrepare f r =>
+    simp only [PConn.step] at h
+    cases hf : s.flights[f]? with
+    | none => simp [hf] at h
+    | some fl =>
+      simp only [hf] at h
+      by_cases ha : fl.ans = none
+      · rw [if_pos ha] at h
+        injection h with h; injection h with h1 h2; subst h1; subst h2
+        exact srvPrepare_refines f fl r hI hR hf ha
+      · rw [if_neg ha] at h; cases h
+  | complete f =>
+    simp only [PConn.step] at h
+    cases hf : s.flights[f]? with
+    | none => simp [hf] at h
+    | some fl =>
+      simp only [hf] at h
+      cases ha : fl.ans with
+      | none => simp [ha] at h
+      | some r =>
+        simp only [ha] at h
+        by_cases hd : fl.done = true
+        · simp [hd] at h
+        · rw [if_neg hd] at h
+          cases r with
+          | some p =>
+            simp only [] at h
+            injection h with h; injection h with h1 h2; subst h1; subst h2
+            obtain ⟨q1, q2⟩ := complete_ok_refines f fl p hI hR hf ha
+            exact ⟨o, rfl, q1, q2⟩
+          | none =>
+            simp only [] at h
+            injection h with h; injection h with h1 h2; subst h1; subst h2
+            exact complete_fail_refines f fl hI hR hf ha
+  | observe c a =>
+    simp only [PConn.step] at h
+    cases hc : s.callers[c]? with
+    | none => simp [hc] at h
+    | some cl =>
+      simp only [hc] at h
+      cases hpc : cl.pc with
+      | start => simp [hpc] at h
+      | answered _ => simp [hpc] at h
+      | returned => simp [hpc] at h
+      | waiting f =>
+        simp only [hpc] at h
+        cases hf : s.flights[f]? with
+        | none => simp [hf] at h
+        | some fl =>
+          cases he : cl.entries[cl.got.length]? with
+          | none => simp [hf, he] at h
+          | some e =>
+            simp only [hf, he] at h
+            by_cases hd : fl.done = true
+            · rw [if_pos hd] at h
+              cases ha : fl.ans with
+              | none => simp [ha] at h
+              | some r =>
+                cases r with
+                | none =>
+                  simp only [ha] at h
+                  injection h with h; injection h with h1 h2; subst h1; subst h2
+                  exact observe_fail_refines c f cl fl e hI hR hc hpc hf he hd ha
+                | some p =>
+                  obtain ⟨id, nc⟩ := p
+                  simp only [ha] at h
+                  by_cases hne : e.2 ≠ nc
+                  · rw [if_pos hne] at h
+                    injection h with h; injection h with h1 h2; subst h1; subst h2
+                    exact observe_count_refines c f cl fl e id nc hI hR hc hpc hf he ha hne
+                  · rw [if_neg hne] at h
+                    have hnc : nc = e.2 := by
+                      by_cases hq : e.2 = nc
+                      · exact hq.symm
+                      · exact absurd hq hne
+                    subst hnc
+                    by_cases hlen : (cl.got ++ [f]).length = cl.entries.length
+                    · rw [if_pos hlen] at h
+                      injection h with h; injection h with h1 h2; subst h1; subst h2
+                      exact observe_exec_refines c f cl fl e id a hI hR hc hpc hf he ha hlen
+                    · rw [if_neg hlen] at h
+                      injection h with h; injection h with h1 h2; subst h1; subst h2
+                      obtain ⟨q1, q2⟩ := observe_more_refines c f cl fl e id hI hR hc hpc hf he ha hlen
+                      exact ⟨o, rfl, q1, q2⟩
+            · rw [if_neg hd] at h; cases h
+  | finish c =>
+    simp only [PConn.step] at h
+    cases hc : s.callers[c]? with
+    | none => simp [hc] at h
+    | some cl =>
+      simp only [hc] at h
+      cases hpc : cl.pc with
+      | start => simp [hpc] at h
+      | waiting _ => simp [hpc] at h
+      | returned => simp [hpc] at h
+      | answered a =>
+        cases a with
+        | ok =>
+          simp only [hpc] at h
+          injection h with h; injection h with h1 h2; subst h1; subst h2
+          exact finish_ret_refines c cl .ok .ok (Or.inl ⟨rfl, rfl⟩) hI hR hc hpc
+        | err =>
+          simp only [hpc] at h
+          injection h with h; injection h with h1 h2; subst h1; subst h2
+          exact finish_ret_refines c cl .err .execErr (Or.inr ⟨rfl, rfl⟩) hI hR hc hpc
+        | unprep id =>
+          simp only [hpc] at h
+          injection h with h; injection h with h1 h2; subst h1; subst h2
+          exact finish_unprep_refines c cl id _ rfl hI hR hc hpc
+
+theorem obs_run_append (o : OState κ) : ∀ (xs ys : List (Ev κ)) (o' o'' : OState κ),
+    Obs.run o xs = some o' → Obs.run o' ys = some o'' → Obs.run o (xs ++ ys) = some o''
+  | [], _, o', _, h1, h2 => by
+    simp only [Obs.run] at h1; injection h1 with h1; subst h1; exact h2
+  | x :: xs, ys, o', o'', h1, h2 => by
+    simp only [Obs.run, List.cons_append] at h1 ⊢
+    cases hs : Obs.step o x with
+    | none => simp [hs] at h1
+    | some o1 =>
+      simp only [hs] at h1 ⊢
+      exact obs_run_append o1 xs ys o' o'' h1 h2
+
+theorem run_refines : ∀ (as : List (Action κ)) (s s' : State κ) (o : OState κ) (evs : List (Ev κ)),
+    Inv s → Rel s o → PConn.run s as = some (s', evs) → ∃ o', Obs.run o evs = some o' ∧ Inv s' ∧ Rel s' o'
+  | [], s, s', o, evs, hI, hR, h => by
+    simp only [PConn.run] at h
+    injection h with h; injection h with h1 h2; subst h1; subst h2
+    exact ⟨o, rfl, hI, hR⟩
+  | a :: as, s, s', o, evs, hI, hR, h => by
+    simp only [PConn.run] at h
+    cases hs : PConn.step s a with
+    | none => simp [hs] at h
+    | some p =>
+      obtain ⟨s1, e1⟩ := p
+      simp only [hs] at h
+      cases hr : PConn.run s1 as with
+      | none => simp [hr] at h
+      | some q =>
+        obtain ⟨s2, e2⟩ := q
+        simp only [hr] at h
+        injection h with h; injection h with h1 h2; subst h1; subst h2
+        obtain ⟨o1, g1, g2, g3⟩ := step_refines hI hR hs
+        obtain ⟨o2, k1, k2, k3⟩ := run_refines as s1 s2 o1 e2 g2 g3 hr
+        exact ⟨o2, obs_run_append o e1 e2 o1 o2 g1 k1, k2, k3⟩
+
+omit [DecidableEq κ] in
+theorem inv_init : Inv (PConn.init : State κ) := by
+  refine ⟨?_, ?_, ?_, ?_, ?_, ?_⟩ <;> intro a b h <;> simp [PConn.init] at h
+
+theorem rel_init : Rel (PConn.init : State κ) (Obs.init : OState κ) := by
+  refine ⟨rfl, ?_, ?_, ?_, ?_⟩
+  · intro c cl h; simp [PConn.init] at h
+  · intro f; simp [Obs.init, PConn.init, absFlight]
+  · intro f h; simp [Obs.init] at h
+  · intro k; simp [Obs.init, PConn.init, unann]
+
+/-- reachable states satisfy the invariant, and the specification accepts the trace -/
+theorem reachable {as : List (Action κ)} {s : State κ} {tr : List (Ev κ)} (h : PConn.run PConn.init as = some (s, tr)) :
+    ∃ o, Obs.run Obs.init tr = some o ∧ Inv s ∧ Rel s o :=
+  run_refines as _ _ _ _ inv_init rel_init h
+
 end C14Conn
